@@ -70,6 +70,7 @@ def harnesses(tier):
             continue  # an alignment of an empty slice
         hs.append({"id": "record/" + "".join(OPS[o] for o in s), "params": {"kind": "record", "ops": list(s)}, "timeout": 300, "twin": s == (0, 2, 0)})
     hs.append({"id": "stream/2", "params": {"kind": "stream"}, "timeout": 600})
+    hs.append({"id": "realgraph/paths", "params": {"kind": "realgraph"}, "timeout": 600})
     return hs
 
 
@@ -253,6 +254,42 @@ def build(params):
             return None
 
         return Harness(args, pre, case, fuel=200)
+
+    if params["kind"] == "realgraph":
+        # the reference handed to the aligner is the spelling of the walk (real GFA.extract_path, all orientation mixes)
+        from . import c14
+
+        LINKS = [("a", "+", "b", "-"), ("b", "-", "c", "+"), ("c", "+", "a", "+"), ("b", "+", "b", "+")]
+        MENU = [">a<b>c", "<c>b<a", ">c>a<b", ">a", "<b<b", ">b>b", ">a<b>c>a"]
+
+        def case3(p, ps, ln):
+            R, GA = M["R"], M["GA"]
+            import gaftools.gfa as G
+
+            calls = []
+            path = c14.pick(p, MENU)
+            walk = [(path[i], path[i + 1]) for i in range(0, len(path), 2)]
+            want = c14.spell(walk)
+            start = c14.pick(ps, [0, 1, 2])
+            length = c14.pick(ln, [1, 2, 3])
+            if start + length > len(want):
+                return "SKIP"
+            rec = lambda: GA.Alignment("r1", 50, 0, length, "+", path, len(want), start, start + length, 1, 1, 60, True, "1=", tags={"cg:Z:": "1="})
+            install(R, GA, [rec], make_aligner([(0, length)], calls), calls)
+            R.GFA = G.GFA  # the real graph class, reading the model file
+            e = stubs.env()
+            c14.LINE_ORDER[0] = 2
+            e.files["g.gfa"] = stubs.MFile("text", c14.gfa_lines("abc", LINKS), None)
+            out = stubs.vp_open("o.gaf", "w")
+            R.realign_gaf("in.gaf", "g.gfa", "r.fa", out, 1)
+            refs = [c[1] for c in calls if c[0] == "ref"]
+            if len(refs) != 1:
+                return "aligner built %d times" % len(refs)
+            if refs[0] != want[start:start + length]:
+                return "reference handed to the aligner for %s[%d:%d] is %r, the walk spells %r" % (path, start, start + length, refs[0], want[start:start + length])
+            return None
+
+        return Harness([("p", "int"), ("ps", "int"), ("ln", "int")], ["0 <= p <= %d and 0 <= ps <= 2 and 0 <= ln <= 2" % (len(MENU) - 1)], case3, fuel=200)
 
     def case2(qe0, qe1, ps0, ps1):
         R, GA = M["R"], M["GA"]
